@@ -112,7 +112,12 @@ func TestC14Xid(t *testing.T) {
 					case 1:
 						h = own()
 					default:
-						switch i % 5 {
+						switch i % 7 {
+						case 5:
+							hl, _ := common.NewHello(4)
+							h = hl.Header
+						case 6:
+							h = *of.NewFeaturesRequest()
 						case 0:
 							h = of.NewFlowMod().Header
 						case 1:
